@@ -83,6 +83,27 @@ func readOps(w *World, keys [][]byte) []obsOp {
 			return out, err
 		}},
 	)
+	// ... and starting at every retained version (the predecessor's root is then looked up first)
+	for _, sv := range m.Versions() {
+		sv := sv
+		if sv == m.First {
+			continue
+		}
+		ops = append(ops, obsOp{name: fmt.Sprintf("TraverseStateChanges(from %d)", sv), run: func(w *World) (string, error) {
+			out := ""
+			if w.Tree.ImmutableTree == nil {
+				return "", nil
+			}
+			err := w.Tree.TraverseStateChanges(sv, 1<<40, func(v int64, cs *iavl.ChangeSet) error {
+				out += fmt.Sprintf("v%d:", v)
+				for _, p := range cs.Pairs {
+					out += fmt.Sprintf("%v %q=%q;", p.Delete, p.Key, p.Value)
+				}
+				return nil
+			})
+			return out, err
+		}})
+	}
 	if len(m.WorkC) > 0 {
 		k := keys[0]
 		ops = append(ops, obsOp{name: fmt.Sprintf("GetProof(%q) on the working tree", k), run: func(w *World) (string, error) {
